@@ -31,7 +31,11 @@ func (o *Obligation) query(withModel bool) string {
 		b.WriteString(d)
 		b.WriteByte('\n')
 	}
-	b.WriteString(c.strLitDecls())
+	if o.nativeStr {
+		b.WriteString(c.strLitDeclsNative())
+	} else {
+		b.WriteString(c.strLitDecls())
+	}
 	for _, d := range c.decls {
 		if o.noQuant && strings.HasPrefix(d, "(assert ") && hasQuant(d) {
 			continue
@@ -61,11 +65,20 @@ func (o *Obligation) query(withModel bool) string {
 	if withModel {
 		pre.WriteString("(set-option :produce-models true)\n")
 	}
-	pre.WriteString(preambleBase)
+	if o.nativeStr {
+		base := preambleBase
+		for _, ln := range []string{"(declare-sort Str 0)\n", "(declare-fun slen (Str) Int)\n", "(declare-fun sat (Str Int) Int)\n", "(declare-const str_empty Str)\n", "(assert (= (slen str_empty) 0))\n"} {
+			base = strings.Replace(base, ln, "", 1)
+		}
+		base = strings.Replace(base, "(set-logic ALL)\n", "(set-logic ALL)\n"+preambleNativeStr, 1)
+		pre.WriteString(base)
+	} else {
+		pre.WriteString(preambleBase)
+	}
 	if strings.Contains(body, "(idx ") {
 		// slice element offsets go through `idx` so that quantifier patterns contain no arithmetic;
 		// the defined variant (a macro) is logically identical and better at producing models
-		if o.idxDefined || o.noQuant {
+		if o.idxDefined || o.noQuant || o.nativeStr {
 			pre.WriteString("(define-fun idx ((o Int) (k Int)) Int (+ o k))\n")
 		} else {
 			pre.WriteString("(declare-fun idx (Int Int) Int)\n(assert (forall ((o Int) (k Int)) (! (= (idx o k) (+ o k)) :pattern ((idx o k)))))\n")
@@ -73,6 +86,10 @@ func (o *Obligation) query(withModel bool) string {
 	}
 	for _, blk := range preambleBlocks {
 		if strings.Contains(body, blk.sym) {
+			if nat, ok := nativeBlocks[blk.sym]; ok && o.nativeStr {
+				pre.WriteString(nat)
+				continue
+			}
 			if o.noQuant {
 				for _, ln := range strings.Split(blk.text, "\n") {
 					if ln != "" && !hasQuant(ln) {
@@ -84,14 +101,77 @@ func (o *Obligation) query(withModel bool) string {
 			pre.WriteString(blk.text)
 		}
 	}
-	if c.needStrExt && !o.noQuant {
+	if c.needStrExt && !o.noQuant && !o.nativeStr {
 		pre.WriteString(strExtAxiom)
+	}
+	if o.nativeStr {
+		body = groundBoxAxioms(body)
 	}
 	b.Reset()
 	b.WriteString(pre.String())
 	b.WriteString(body)
 	// Float64/Float32 are reserved sort names in the solvers: rename consistently
 	return strings.ReplaceAll(strings.ReplaceAll(b.String(), "Float64", "FP64s"), "Float32", "FP32s")
+}
+
+var boxAxiomRe = regexp.MustCompile(`\(assert \(forall \(\(x [^()]+\)\) \(! \(= \((unbox_[^ ]+) \((box_[^ ]+) x\)\) x\) :pattern \(\(box_[^ ]+ x\)\)\)\)\)[^\n]*\n`)
+var binderTokRe = regexp.MustCompile(`(^|[ (])(q_[A-Za-z0-9_]+|[a-z])([ )]|$)`)
+
+// groundBoxAxioms replaces every `forall x. unbox(box x) = x` axiom by its instances on the ground `box`
+// terms of the query. The axiom only says that box is injective with left inverse unbox, and instantiating it
+// creates no new box terms, so a model of the instances extends to a model of the axiom: satisfiability is
+// preserved, and the query loses a quantifier that keeps model finding from terminating.
+func groundBoxAxioms(body string) string {
+	ms := boxAxiomRe.FindAllStringSubmatch(body, -1)
+	if len(ms) == 0 {
+		return body
+	}
+	body = boxAxiomRe.ReplaceAllString(body, "")
+	var extra strings.Builder
+	for _, m := range ms {
+		unbox, box := m[1], m[2]
+		seen := map[string]bool{}
+		needle := "(" + box + " "
+		for i := 0; ; {
+			j := strings.Index(body[i:], needle)
+			if j < 0 {
+				break
+			}
+			start := i + j + len(needle)
+			// the argument: one balanced term
+			k, depth := start, 0
+			for k < len(body) {
+				c := body[k]
+				if c == '(' {
+					depth++
+				} else if c == ')' {
+					if depth == 0 {
+						break
+					}
+					depth--
+					if depth == 0 {
+						k++
+						break
+					}
+				} else if depth == 0 && (c == ' ' || c == '\n') {
+					break
+				}
+				k++
+			}
+			t := body[start:k]
+			i = start
+			if t == "" || seen[t] || binderTokRe.MatchString(t) {
+				continue
+			}
+			seen[t] = true
+			fmt.Fprintf(&extra, "(assert (= (%s (%s %s)) %s))\n", unbox, box, t, t)
+		}
+	}
+	// instances go right before the obligation marker
+	if k := strings.Index(body, "; obligation "); k >= 0 {
+		return body[:k] + extra.String() + body[k:]
+	}
+	return body + extra.String()
 }
 
 func hasQuant(s string) bool {
@@ -268,6 +348,15 @@ func solve(o *Obligation, dir string, timeoutS, seed int, wantModel bool, only [
 		os.WriteFile(fileNQ, []byte(o.query(wantModel)), 0o644)
 		o.noQuant = false
 	}
+	// model-finding variant: strings as native SMT-LIB sequences (no string axioms). Only a `sat` from it is
+	// used: it is a concrete refutation under the real meaning of strings.
+	fileSeq := ""
+	if strings.Contains(q, "Str") && len(only) == 0 && !o.ExpectSat {
+		o.nativeStr = true
+		fileSeq = strings.TrimSuffix(file, ".smt2") + ".seq.smt2"
+		os.WriteFile(fileSeq, []byte(o.query(wantModel)), 0o644)
+		o.nativeStr = false
+	}
 	ctx, cancel := context.WithCancel(context.Background())
 	defer cancel()
 	type r struct {
@@ -293,6 +382,9 @@ func solve(o *Obligation, dir string, timeoutS, seed int, wantModel bool, only [
 		}
 		if fileNQ != "" && sp.name == "z3-new" {
 			jobs = append(jobs, job{sp, fileNQ, sp.name + "/noquant"})
+		}
+		if fileSeq != "" && sp.name == "z3-new" {
+			jobs = append(jobs, job{sp, fileSeq, sp.name + "/seq"})
 		}
 	}
 	for _, jb := range jobs {
@@ -320,6 +412,9 @@ func solve(o *Obligation, dir string, timeoutS, seed int, wantModel bool, only [
 			res.Hint = "refutable when the quantified hypotheses are ignored"
 			res.HintRaw = x.raw
 			continue
+		}
+		if strings.HasSuffix(x.solver, "/seq") && x.ans != "sat" {
+			continue // the native-string variant only contributes refutations
 		}
 		if x.ans == "unsat" || x.ans == "sat" {
 			res.Answer, res.Solver, res.Seconds, res.Raw = x.ans, x.solver, x.sec, x.raw
